@@ -108,13 +108,35 @@ def execute(sc, ctx, want=('C02',)):
         if opt and triples.get(False) is not None and len(triples[False][2]) > cap:
             out.event('optimised-run-skipped-size')
             continue
+        symlog = []
         try:
-            _p.serialise(mod, fs, base, 'binary', opt)
+            if 'C03' in want:
+                # observe, at the class seam, which number every symbol() call writes (all three files)
+                from proof_generation.serializing_interpreter import SerializingInterpreter as _SI
+                _orig_symbol = _SI.symbol
+
+                def _symbol(self_, name, _o=_orig_symbol, _log=symlog):
+                    r = _o(self_, name)
+                    _log.append((name, self_.out.data[-1]))
+                    return r
+                _SI.symbol = _symbol
+            try:
+                _p.serialise(mod, fs, base, 'binary', opt)
+            finally:
+                if 'C03' in want:
+                    _SI.symbol = _orig_symbol
         except Exception as e:
             out.refused = True
             out.event('refused-at-serialise', opt, type(e).__name__, str(e)[:80])
             refusals[opt] = type(e).__name__
             continue
+        if symlog:
+            n2i, i2n = {}, {}
+            for name, i in symlog:
+                if n2i.setdefault(name, i) != i or i2n.setdefault(i, name) != name:
+                    out.violate('distinct symbols get distinct numbers and the same symbol the same number across the three files', 'C03|symbol-numbering',
+                                'optimize=%s: symbol %r written as %d, but %s' % (opt, name, i, 'earlier as %d' % n2i[name] if n2i[name] != i else 'that number already denotes %r' % i2n[i]))
+                    break
         triple = fs.triple(base)
         triples[opt] = triple
         out.event('serialised', opt, [len(x) for x in triple])
